@@ -456,7 +456,9 @@ func (in *verifSnapctlInst) argv(abs []string, variant int) []string {
 			}
 			out = append(out, verifSnapctlPick(sp, k))
 		case "A":
-			out = append(out, verifSnapctlPick([]string{"foo", "-", "k=v", "help"}, k))
+			out = append(out, verifSnapctlPick([]string{"foo", "-", "k=v"}, k))
+		case "HW":
+			out = append(out, "help")
 		case "U":
 			out = append(out, verifSnapctlPick([]string{"--verif-unknown", "-" + in.unkShort, "--verif-unknown=1"}, k))
 		default:
@@ -548,6 +550,9 @@ func TestVerifSnapctl(t *testing.T) {
 				}
 			}
 		}
+	}
+	if topNames["help"] {
+		t.Fatal("a snapctl command named `help' is registered: the token HW of Snapctl.tla (a plain word) no longer describes it")
 	}
 	unk := ""
 	for _, r := range "ZQXYWJK" {
@@ -732,8 +737,14 @@ func TestVerifSnapctl(t *testing.T) {
 			for len(abs) < n {
 				// bias towards vectors that get past the first token
 				var tk string
-				if len(abs) == 0 && rng.Intn(4) != 0 {
+				if r := rng.Intn(10); len(abs) == 0 && r < 5 {
 					tk = "C"
+				} else if len(abs) == 0 && r < 8 {
+					tk = "HW" // the word `help' in front, then (mostly) a command
+				} else if len(abs) == 1 && abs[0] == "HW" && r < 7 {
+					tk = "C"
+				} else if len(abs) >= 2 && r == 0 {
+					tk = "DD"
 				} else {
 					tk = toks[rng.Intn(len(toks))]
 				}
